@@ -66,6 +66,7 @@ func c14Isolation(r *core.Run, scheduled bool) {
 	// client-fp-1 may use everything, client-fp-2 only the r2 keys
 	var reqs []*c14Req
 	encoded := 0
+	hung := ""
 	var recs []map[string]any
 	var bad []string
 	pgpKeys := openpgp.EntityList{}
@@ -312,8 +313,29 @@ func c14Isolation(r *core.Run, scheduled bool) {
 				go body()
 			}
 		}
-		for c := 0; c < nclients; c++ {
-			reqs = append(reqs, world.Recv(w, done)...)
+		// every request ends: its caller gets an answer or gives up.  A workload
+		// that takes seconds and is not through after an hour of virtual time
+		// (the clock only advances while everybody waits) hangs: a lock that is
+		// never released, a wake-up that never comes - with the server's
+		// background loops still ticking, so that the bubble as a whole is not
+		// deadlocked.
+		hangAt := time.NewTimer(time.Hour)
+		for c := 0; c < nclients && hung == ""; c++ {
+			select {
+			case rs := <-done:
+				w.Yield("wake")
+				reqs = append(reqs, rs...)
+			case <-hangAt.C:
+				w.Yield("wake")
+				hung = fmt.Sprintf("%d of %d clients never got their answers", nclients-c, nclients)
+				for _, l := range core.RelicStacks() {
+					r.Logf("blocked: %s", l)
+				}
+			}
+		}
+		hangAt.Stop()
+		if hung != "" {
+			return
 		}
 		recs, bad = auditLines(cfg.AuditFile)
 		srv.Close()
@@ -322,6 +344,10 @@ func c14Isolation(r *core.Run, scheduled bool) {
 	sort.Slice(reqs, func(i, j int) bool { return reqs[i].ID < reqs[j].ID })
 	if w.Deadlock != "" {
 		r.Failf("C14.deadlock", "deadlock", "every goroutine blocked for good: %s", w.Deadlock)
+		return
+	}
+	if hung != "" {
+		r.Failf("C14.deadlock", "requests-hang", "after one hour of virtual time %s (blocked goroutines are in the trace)", hung)
 		return
 	}
 	if r.Notes["step_limit"] != "" || r.Notes["internal_error"] != "" {
